@@ -112,6 +112,37 @@ def h_ctor_order(ctx, skeleton):
     ctx.check("pickle-state-is-the-five-parts", sym_eq(tuple(st[0]), (a._scheme, a._netloc, a._path, a._query, a._fragment)))
 
 
+def h_made(ctx, route, n):
+    """URLs produced by modifiers / build keep ==, hash and ordering coherent with a freshly parsed equal URL"""
+    P = ctx.P
+    t = ctx.str("t", n, lo=97, hi=122)
+    routes = {
+        "origin": lambda: P.URL("http://h" + t + "/p?q#f").origin(), "with_path-empty": lambda: P.URL("http://h" + t + "/p").with_path(""),
+        "parent": lambda: P.URL("http://h" + t + "/p").parent, "with_scheme": lambda: P.URL("x://h" + t).with_scheme("http"),
+        "join": lambda: P.URL("http://a/b").join(P.URL("//h" + t)), "relative": lambda: P.URL("http://h/" + t + "?q").relative(),
+        "build-encoded": lambda: P.URL.build(scheme="http", host="h" + t, encoded=True), "build-encoded-noauth": lambda: P.URL.build(path="", query_string=t, encoded=True),
+        "build-encoded-path": lambda: P.URL.build(path="/" + t, encoded=True), "build": lambda: P.URL.build(scheme="http", host="h" + t),
+        "with_query-none": lambda: P.URL("http://h" + t + "?a").with_query(None), "with_fragment-none": lambda: P.URL("//h" + t + "#f").with_fragment(None),
+    }
+    r = call(routes[route])
+    ctx.observe(route, r[0])
+    ctx.check("no-exception", r[0] == "ok", r[1])
+    if r[0] != "ok":
+        return
+    a = r[1]
+    others = [P.url.from_parts_uncached(a._scheme, a._netloc, a._path, a._query, a._fragment),
+              P.url.from_parts_uncached(a._scheme, a._netloc, "/" if (a._netloc and not a._path) else a._path, a._query, a._fragment),
+              P.url.from_parts_uncached(a._scheme, a._netloc, a._path, a._query + "x", a._fragment), P.URL("/?a=b"), P.URL("")]
+    for i, b in enumerate(others):
+        eq = call(lambda: a == b)[1]
+        lt = call(lambda: a < b)[1]
+        gt = call(lambda: a > b)[1]
+        ctx.check("exactly-one-of-lt-eq-gt", (int(bool(lt)) + int(bool(eq)) + int(bool(gt))) == 1, (i, lt, eq, gt))
+        if i < 2:
+            ctx.check("equal-to-its-parts", eq)
+            ctx.check("equal-urls-equal-hash", hash(a) == hash(b))
+
+
 def h_foreign(ctx, n):
     P = ctx.P
     t = ctx.str("t", n)
@@ -142,5 +173,8 @@ def families(tier):
         fams.append(Family("ctor-pair-%d" % i, h_ctor_pair, dict(skeleton=sk)))
     for i, sk in enumerate([["http://h/p?q#", ("ns",)], ["http://h/", ("ns",), "?", ("ns",)], ["http://u", ("in", "aA %~"), "@h/#%", ("in", "aAfF0"), ("in", "aAfF0")]]):
         fams.append(Family("ctor-order-%d" % i, h_ctor_order, dict(skeleton=sk)))
+    for route in ("origin", "with_path-empty", "parent", "with_scheme", "join", "relative", "build-encoded", "build-encoded-noauth", "build-encoded-path",
+                  "build", "with_query-none", "with_fragment-none"):
+        fams.append(Family("made/%s" % route, h_made, dict(route=route, n=1)))
     fams.append(Family("foreign", h_foreign, dict(n=1)))
     return fams
